@@ -513,13 +513,13 @@ func checkC03(c *Ctx) {
 	c.Rule("C03.1", "chunk framing: the chunk serialiser hands the destination, in one Write, the 4 type bytes, len(body) as big-endian u32 and that same body", 1)
 	c.Rule("C03.2", "header count = chunks written: whole-file simulation of WriteTo with an arbitrary stale cached count — the header declares len(Tracks) and exactly one MTrk chunk per track follows, in order, nothing after the last", 1)
 	c.Rule("C03.3", "header layout: MThd, length 6, format u16be, track count u16be, division (metric: u16be with bit 15 = 0 after the 32767 clamp, 0 -> 960; time code: -(fps) as int8, subframes)", 3)
-	c.Rule("C03.4", "end-of-track discipline: every append to a Track is dominated by the not-closed test, Close appends the end-of-track constant, Add does not", 4)
+	c.Rule("C03.4", "end-of-track discipline (track cells): IsClosed, Close and Add are interpreted on an empty, an open, a closed and a nearly-closed (FF 2F 01 xx) track — Close appends the end-of-track event exactly when the track is open, Add stores nothing on a closed track and every message on an open one", 4)
 	c.Rule("C03.5", "determinism: no map range, clock, random source, goroutine or select reachable from WriteTo", 1)
 	c.Rule("C03.6", "size accounting: in the whole-file simulation of WriteTo the size reported on success is the number of bytes handed to the destination (until round 5 a flow rule \"the destination flows only into the counting wrapper, WriteTo returns a load of its counter\" stood here; it alarmed on a counter read through an accessor)", 1)
 	c.Rule("C03.7", "VLQ codec: encoder output equals the canonical encoding bit for bit in each magnitude cell; decoder = concatenation of 7-bit groups incl. non-minimal encodings; decode(encode(n)) = n", 5)
 	c.Rule("C03.8", "running status only where the format allows: per-event encoder table (see C01.2)", 4)
 	c.Rule("C03.9", "format promotion: (format 0, >1 tracks) -> format 1 and no other format change in WriteTo", 1)
-	c.Rule("C03.12", "content: in the whole-file simulation every event of every kind a file can hold (the seven channel kinds, a meta event, a complete sysex, an F7 packet) is written as VLQ(its delta) followed by its bytes in SMF framing, once and in order — the strict parser recovers exactly what was written (= C01.7)", 1)
+	c.Rule("C03.12", "content: in the whole-file simulation every event of every kind a file can hold (the seven channel kinds, a text meta event, a meta event of an undefined type, a complete sysex, an F7 packet; without and with a logger) is written as VLQ(its delta) followed by its bytes in SMF framing, once and in order — the strict parser recovers exactly what was written (= C01.7)", 1)
 
 	writeTo := p.Method("smf", "SMF", "WriteTo")
 	if writeTo == nil {
